@@ -48,7 +48,21 @@ func (z *Z) labelVariant(lab string, allowWS, allowNL bool) string {
 		if allowNL {
 			k = 4
 		}
-		v = strings.ReplaceAll(v, " ", []string{"  ", " \t", "   ", "\n"}[z.s.Intn(k)])
+		// every gap gets its own spelling (a lone space may follow an irregular gap and vice versa)
+		gaps := []string{"  ", " \t", "   ", "\n"}
+		words := strings.Split(v, " ")
+		var sb strings.Builder
+		for i, w := range words {
+			if i > 0 {
+				if coin(z.s, 1, 3) {
+					sb.WriteString(" ")
+				} else {
+					sb.WriteString(gaps[z.s.Intn(k)])
+				}
+			}
+			sb.WriteString(w)
+		}
+		v = sb.String()
 		z.note("label-ws")
 	}
 	return v
